@@ -336,9 +336,7 @@ def action_and_edge_ranges(ctx):
                 loc=init.loc(act),
             )
     # edge index space
-    gos = single.methods.get("_get_observation_space")
-    if gos is None:
-        raise AnalysisError("_get_observation_space vanished")
+    gos = _obs_space_builder(ctx, single)
     env2 = {}
     for n in own_nodes(gos.node):
         if isinstance(n, ast.Assign) and isinstance(n.targets[0], ast.Name):
@@ -434,13 +432,45 @@ def step_flags(ctx):
         raise AnalysisError("MultiJobShopGraphEnv.step shape not recognised")
 
 
+# --------------------------------------------------------------------- roles
+def _obs_space_builder(ctx, single):
+    """The function that builds the observation space: the method called in
+    `self.observation_space = self.<m>()` of the constructor (or the
+    constructor itself when the space is built inline)."""
+    init = single.methods.get("__init__")
+    if init is None:
+        raise AnalysisError("SingleJobShopGraphEnv.__init__ vanished")
+    # the constructor may be split into private set-up steps: look at all of
+    # the class's methods, the constructor first
+    holders = [init] + [m for m in single.methods.values() if m is not init]
+    for h, n in ((h, x) for h in holders for x in own_nodes(h.node)):
+        tgs = n.targets if isinstance(n, ast.Assign) else [n.target] if isinstance(n, ast.AnnAssign) and n.value is not None else []
+        if any(isinstance(t, ast.Attribute) and t.attr == "observation_space" for t in tgs):
+            v = n.value
+            if isinstance(v, ast.Call) and isinstance(v.func, ast.Attribute) and isinstance(v.func.value, ast.Name) and v.func.value.id == "self":
+                m = ctx.repo.method(single, v.func.attr)
+                if m is not None:
+                    return m
+            return h
+    raise AnalysisError("SingleJobShopGraphEnv: no assignment of observation_space found")
+
+
+def _padder(ctx, multi):
+    """The method of the multi environment that pads observations: the one
+    that calls add_padding."""
+    for m in multi.methods.values():
+        if any(isinstance(n, ast.Call) and (dotted(n.func) or "").split(".")[-1] == "add_padding" for n in own_nodes(m.node)):
+            return m
+    raise AnalysisError("MultiJobShopGraphEnv: no method calls add_padding")
+
+
 # --------------------------------------------------------------------- R18.d
 def key_agreement(ctx):
     chk, repo = ctx.chk, ctx.repo
     single = repo.find_class("SingleJobShopGraphEnv")
-    gos, go = single.methods.get("_get_observation_space"), single.methods.get("get_observation")
-    if gos is None or go is None:
-        raise AnalysisError("observation builders vanished")
+    gos, go = _obs_space_builder(ctx, single), single.methods.get("get_observation")
+    if go is None:
+        raise AnalysisError("get_observation vanished")
 
     def keys(fi_raw):
         fi = ctx.norm.flat(fi_raw)
@@ -506,6 +536,27 @@ def _fill_values(ctx, ff, f, pv):
                 if isinstance(t, ast.Subscript) and isinstance(t.value, ast.Name) and t.value.id == dname and "REMOVED_NODES" in ast.unparse(_module_const(ctx, f, t.slice)):
                     mask = _module_const(ctx, f, n.value)
         return default, mask
+    # (1b) TABLE.get(key, DEFAULT) on a dict literal (local or module level)
+    if (
+        isinstance(pv, ast.Call) and isinstance(pv.func, ast.Attribute) and pv.func.attr == "get"
+        and isinstance(pv.func.value, ast.Name) and len(pv.args) == 2
+    ):
+        tbl = _module_const(ctx, f, pv.func.value)
+        if isinstance(tbl, ast.Name):
+            for n in own_nodes(ff.node):
+                if isinstance(n, (ast.Assign, ast.AnnAssign)) and n.value is not None:
+                    t = n.targets[0] if isinstance(n, ast.Assign) else n.target
+                    if isinstance(t, ast.Name) and t.id == tbl.id:
+                        tbl = n.value
+        if isinstance(tbl, ast.Dict):
+            mask = None
+            for k, v in zip(tbl.keys, tbl.values):
+                if k is not None and "REMOVED_NODES" in ast.unparse(_module_const(ctx, f, k)):
+                    mask = _module_const(ctx, f, v)
+            others = [k for k in tbl.keys if k is None or "REMOVED_NODES" not in ast.unparse(_module_const(ctx, f, k))]
+            if not others:
+                return _module_const(ctx, f, pv.args[1]), mask
+        return None, None
     # (2) helper call / conditional expression
     tests = []
     if isinstance(pv, ast.Call):
@@ -532,9 +583,7 @@ def _fill_values(ctx, ff, f, pv):
 def padding(ctx):
     chk, repo = ctx.chk, ctx.repo
     multi = repo.find_class("MultiJobShopGraphEnv")
-    f = multi.methods.get("_add_padding_to_observation")
-    if f is None:
-        raise AnalysisError("_add_padding_to_observation vanished")
+    f = _padder(ctx, multi)
     ff = ctx.norm.flat(f)
     fw0 = [n for n in own_nodes(ff.node) if isinstance(n, ast.Call) and (dotted(n.func) or "") == "add_padding"]
     if not fw0:
@@ -588,35 +637,39 @@ def freshness(ctx):
     freshly padded: no path returns a stored array."""
     chk, repo = ctx.chk, ctx.repo
     single = repo.find_class("SingleJobShopGraphEnv")
-    gei = single.methods.get("_get_edge_index")
     go = single.methods.get("get_observation")
-    if gei is None or go is None:
-        raise AnalysisError("_get_edge_index/get_observation vanished")
-    eng = ctx.engine(relevant=lambda e: False, max_depth=0)
+    if go is None:
+        raise AnalysisError("get_observation vanished")
+    # every returning path of get_observation (private helpers inlined) reads
+    # the edges of the current graph
+    eng = ctx.engine(relevant=lambda e: e.kind == "call" and e.data.get("attr") == "edges", max_depth=3)
     bad = False
     n = 0
-    for p in eng.paths(gei, single):
+    for p in eng.paths(go, single):
         if p.outcome != "return":
             continue
         n += 1
         if not any(e.kind == "call" and e.data.get("attr") == "edges" for e in p.events):
             bad = True
+            last = p.events[-1] if p.events else None
             chk.violation(
-                "R18.f", gei, p.events[-1].node,
-                "a path of _get_edge_index returns without reading the current graph's edges(): the observation "
+                "R18.f", go, last.node if last else None,
+                "a path of get_observation returns without reading the current graph's edges(): the observation "
                 "can show the edge list of an earlier step (stale cache)",
-                loc=p.events[-1].loc, path=p.describe(),
+                loc=last.loc if last else go.loc(), path=p.describe(),
             )
             break
-    if not bad and n:
-        chk.ok("R18.f", gei.qualname, gei.loc(), f"{n} return paths read graph.edges() of the current graph")
-    src = ast.unparse(go.node)
-    if "self.job_shop_graph.removed_nodes" in src and "self._get_edge_index()" in src:
-        chk.ok("R18.f", go.qualname, go.loc(), "mask and edge index rebuilt from the current graph on every call")
+    if n == 0:
+        raise AnalysisError("get_observation: no return path")
+    if not bad:
+        chk.ok("R18.f", go.qualname, go.loc(), f"{n} return paths read graph.edges() of the current graph")
+    src = ast.unparse(ctx.norm.flat(go).node)
+    if "self.job_shop_graph.removed_nodes" in src:
+        chk.ok("R18.f", go.qualname, go.loc(), "removed-nodes mask rebuilt from the current graph on every call")
     else:
-        chk.violation("R18.f", go, None, "get_observation does not rebuild the removed-nodes mask / edge index from the current graph")
+        chk.violation("R18.f", go, None, "get_observation does not rebuild the removed-nodes mask from the current graph")
     multi = repo.find_class("MultiJobShopGraphEnv")
-    f = multi.methods.get("_add_padding_to_observation")
+    f = _padder(ctx, multi)
     loops = [x for x in own_nodes(f.node) if isinstance(x, ast.For)]
     if len(loops) != 1:
         raise AnalysisError("_add_padding_to_observation: loop not recognised")
